@@ -801,6 +801,22 @@ def correspond_torch(ctx, case, impl, mout, objs):
             return
 
 
+def raise_trigger(case, comp, utts):
+    """structural description of what in the input makes a run die (for known-finding predicates)"""
+    from pydrobert.speech.compute import STFTFrameComputer
+
+    n = [l[4] for l in utts]
+    if isinstance(comp, STFTFrameComputer):
+        L = comp.frame_length
+        if any(L // 2 + 1 <= x < L for x in n):
+            return "shorter_than_frame"
+        if case["posts"] and any(x < L // 2 + 1 for x in n):
+            return "zero_frames_with_postprocessor"
+    elif case["posts"] and any(x == 0 for x in n):
+        return "zero_frames_with_postprocessor"
+    return "other"
+
+
 def torch_chan_ok(case, l):
     _, uid, ndim, chans, samples, readable, ext = l
     if ndim == 1:
@@ -859,7 +875,8 @@ def oracle_torch(ctx, case, impl, objs):
     if complete and impl["outcome"] != "exit=0":
         ctx.violation(case, "exit=0", impl["outcome"],
                       "signals-to-torch-feat-dir completes when every remaining utterance is readable and satisfies the channel rules",
-                      tags=dict(tags, clause="raises", exc=impl["outcome"].split("@")[0]))
+                      tags=dict(tags, clause="raises", exc=impl["outcome"].split("@")[0],
+                                trigger=raise_trigger(case, comp, good)))
         return
     if not complete:
         ctx.count("error_run")
